@@ -46,3 +46,49 @@ Definition competitor (c : client) (e : event) : Prop :=
 Definition fork_set (c : client) (K : list event) : Prop :=
   K <> [] /\ Forall (competitor c) K /\ NoDup (map e_id K) /\ NoDup (map ev_key K) /\
   (forall e e', In e K -> In e' K -> e_id e = e_id e' -> e = e').
+
+(* ---- appended for C07: well-formed snapshot queue (labels strictly increasing, below the current epoch, and equal to the
+   epoch of the stored core).  Holds in every reachable state; implies the side condition of C07_redelivery_idempotent. *)
+Fixpoint snaps_sorted (q : list snap) : Prop :=
+  match q with [] => True | s :: r => Forall (fun t => sn_epoch s < sn_epoch t) r /\ snaps_sorted r end.
+Definition queue_wf (c : client) : Prop :=
+  Forall (fun s => k_epoch (sn_core s) = sn_epoch s /\ sn_epoch s < k_epoch (kc c)) (queue c) /\ snaps_sorted (queue c).
+
+(* ---------------------------------------------------------------- second batch: C03 C05 C11 C20 *)
+(* local API calls and deliveries, as one operation type *)
+Inductive eop :=
+| ODeliver (e : event) | OCommitted (e : event) | OMerge | OClear | OSent (e : event) | OSentAs (e : event) (key : N)
+| OLeave (e : event) | ORestart.
+
+Definition estep (c : client) (o : eop) : client :=
+  match o with
+  | ODeliver e => fst (deliver c e)
+  | OCommitted e => committed c e
+  | OMerge => fst (merge_pending c)
+  | OClear => clear_pending c
+  | OSent e => sent c e
+  | OSentAs e k => sent_as c e k
+  | OLeave e => leave_created c e
+  | ORestart => restart c
+  end.
+
+Definition erun (c : client) (ops : list eop) : client := fold_left estep ops c.
+
+(* the MLS states a client has been in along a run (ghost history) *)
+Fixpoint visited (c : client) (ops : list eop) : list N :=
+  match ops with
+  | [] => [k_cur (kc c)]
+  | o :: r => k_cur (kc c) :: visited (estep c o) r
+  end.
+
+(* every state whose secrets a core holds (stored exporter secrets and retained past-epoch secrets) *)
+Definition held_states (k : core) : list N := map snd (k_secrets k) ++ map snd (k_past k).
+
+(* a foreign application message was read (its plaintext stored) *)
+Definition reads (c : client) (e : event) : Prop := snd (deliver c e) = RApp /\ e_author e <> me c.
+
+(* queue entries with their timestamps forgotten *)
+Definition forget_ts (c : client) : client := restart c.
+
+(* the group-visible part of the MLS state: what C05 protects *)
+Definition gstate (c : client) := (k_cur (kc c), k_epoch (kc c), k_data (kc c)).
